@@ -159,4 +159,16 @@ theorem runFlow_length (Infer : InferFn) : ∀ (steps : List Step) (st : Env × 
   | [], _ => rfl
   | s :: ss, st => by simp [runFlow, runFlow_length Infer ss]
 
+theorem stepOut_next (st : Env × Nat) (s : Step) (c : Call) (r : Result) :
+    (stepOut st s c r).2 = st.2 + (match r with | .ok tys => tys.length | .error _ => 0) := by
+  cases r <;> simp [stepOut]
+
+theorem stepOut_old (st : Env × Nat) (s : Step) (c : Call) (r : Result) (v : Nat) (hv : v < st.2) :
+    (stepOut st s c r).1 v = st.1 v := by
+  cases r with
+  | error e => rfl
+  | ok tys =>
+    simp only [stepOut]
+    rw [if_neg (by omega)]
+
 end Sing
